@@ -135,6 +135,43 @@ def fam_parse(sess):
             sess.discharged('parse unit %r: %d spellings/forms, every n < 2^20: number x %d' % (unit, len(forms), table[unit]), family=fam, queries=paths[0])
 
 
+COERCE = {'1k': 1024, '.5k': 512, '0.5k': 512, '1.5kb': 1500, '.25mib': 262144, '.5 k': 512, '2': 2, '3kib': 3072, '.5M': 524288, '2tb': 2 * 10 ** 12}
+
+
+def fam_coerce(sess):
+    """a size literal on the right of a comparison reaches the number through Variant::to_int / to_float (real MIR, on the literal's
+    text): the same byte count as parse_filesize gives, also for numbers written without a leading zero (.5k)"""
+    prog = sess.prog
+    fam = 'coerce'
+    ex = sess.executor(unwind=6, solver_timeout_ms=30000)
+    ti = prog.find('Variant', 'to_int'); tf = prog.find('Variant', 'to_float')
+    sess.bounds[fam] = {'literals': sorted(COERCE)}
+    bad = {}
+    for lit, want in COERCE.items():
+        def run(ctx, lit=lit):
+            v = E.mk_variant(prog, 'String', string_value=Str(lit))
+            return ctx.call_fn(ti, [Ref(Cell(v))]), ctx.call_fn(tf, [Ref(Cell(v))])
+
+        def on_path(ctx, out, lit=lit, want=want):
+            if out[0] != 'ret':
+                bad[lit] = str(out)[:200]; return
+            i, f = out[1]
+            okv = ctx.check(Not(And(i == want, z3.fpEQ(f, z3.FPVal(float(want), z3.Float64()))))) == z3.unsat
+            if not okv:
+                m = ctx.model()
+                bad[lit] = 'to_int = %s, to_float = %s' % (m.eval(i, model_completion=True), m.eval(f, model_completion=True))
+        ex.explore(run, on_path)
+    viol = {k: v for k, v in bad.items() if v.startswith('to_int')}
+    other = {k: v for k, v in bad.items() if not v.startswith('to_int')}
+    for lit, what in list(viol.items())[:3]:
+        sess.violated('coerce %r' % lit, 'coerce/' + ('leading-dot' if lit.startswith('.') else 'literal'), 'Variant(%r): %s, documented value %d' % (lit, what, COERCE[lit]),
+                      {'literal': lit}, cli_replay_parse(lit.replace(' ', ''), COERCE[lit]), fam)
+    for lit, what in other.items():
+        sess.inconclusive('coerce %r' % lit, what, fam)
+    if not bad:
+        sess.discharged('coerce: %d literal spellings reach to_int / to_float as their documented byte count' % len(COERCE), family=fam, queries=len(COERCE))
+
+
 # ------------------------------------------------------------------------------------------------ format
 UNITS = ['', 'b', 'k', 'kib', 'kb', 'm', 'mib', 'mb', 'g', 'gib', 'gb', 't', 'tib', 'tb']
 FLAGS = ['', 'c', 'd', 's', 'cs', 'ds']
@@ -302,7 +339,19 @@ def fam_format(sess):
                      o['space'] == sp, o['places'] == If(hz, z3.ZeroExt(32, z), BitVecVal(default_places, 64))]
             short = 's' in flags
             want_repl = [('kB', 'KB')] + ([('iB', ''), ('KB', 'K'), ('MB', 'M'), ('GB', 'G'), ('TB', 'T'), ('PB', 'P'), ('EB', 'E')] if short else [])
-            conds.append(BoolVal(isinstance(res, Rendered) and list(res.repl) == want_repl))
+            # the replacements are compared by what they do to every unit text humansize can emit for this base and unit
+            toks = {'BINARY': ['B', 'KiB', 'MiB', 'GiB', 'TiB', 'PiB', 'EiB'], 'DECIMAL': ['B', 'kB', 'MB', 'GB', 'TB', 'PB', 'EB'],
+                    'WINDOWS': ['B', 'KB', 'MB', 'GB', 'TB', 'PB', 'EB']}[base]
+            uidx = {'': None, 'b': 0, 'k': 1, 'kib': 1, 'kb': 1, 'm': 2, 'mib': 2, 'mb': 2, 'g': 3, 'gib': 3, 'gb': 3, 't': 4, 'tib': 4, 'tb': 4}[unit]
+            if uidx is not None:
+                toks = [toks[uidx]]
+
+            def apply(repl, t):
+                for a_, b_ in repl:
+                    t = t.replace(a_, b_)
+                return t
+            same = isinstance(res, Rendered) and all(apply(res.repl, '12.5 ' + t) == apply(want_repl, '12.5 ' + t) for t in toks)
+            conds.append(BoolVal(same))
             r = ctx.check(fix, Not(And(conds)))
             if r == z3.unsat:
                 continue
@@ -355,7 +404,7 @@ def py_format(size, spec):
 def cli_replay_format(spec):
     def rep():
         exe = common.native_binary()
-        for size in (1678123, 5 * 1024 * 1024 + 1234, 999):
+        for size in (999, 1500, 2048, 1678123, 5 * 1024 * 1024 + 1234, 1500000000, 3 * 10 ** 12):
             r = common.run_cli(exe, ["format_size(%d, '%s')" % (size, spec), 'from', '.'], {'f': {'size': 1}})
             got = r['stdout'].strip()
             want = py_format(size, spec)
@@ -374,5 +423,7 @@ def main(sess):
     only = getattr(sess, 'only', None)
     if not only or 'parse' in only:
         fam_parse(sess)
+    if not only or 'coerce' in only:
+        fam_coerce(sess)
     if not only or 'format' in only:
         fam_format(sess)
